@@ -73,6 +73,10 @@ Expected(r) ==
     [] r.op = "enumerate" -> Ok(VList([k \in 1..Len(r.s) |-> VTuple(<<VInt(r.n + k - 1), VInt(r.s[k])>>)]))
     [] r.op = "zip"     -> Ok(VList(MapSeq(LAMBDA row : VTuple(MapSeq(VInt, row)), Zip(r.ss))))
     [] r.op = "len"     -> Ok(VInt(Len(r.s)))
+    \* values are immutable / results are fresh: concatenating onto a slice must not disturb the value it was sliced from,
+    \* nor the other operands of the same expression; extending one base twice must give independent results
+    [] r.op = "slice_concat" -> Ok(VList(<<Wrap(r.ty, SubSeq(r.s, 1, r.k) \o r.x), Wrap(r.ty, r.s), Wrap(r.ty, SubSeq(r.s, r.k + 1, Len(r.s)))>>))
+    [] r.op = "extend_twice" -> Ok(VList(<<Wrap(r.ty, r.s \o r.x \o r.y), Wrap(r.ty, r.s \o r.x \o r.z), Wrap(r.ty, r.s \o r.x), Wrap(r.ty, r.s)>>))
     [] r.op = "in"      -> Ok(VBool(Occ(r.s, r.sub) # {}))
 
 Good(r) == ResEq(Expected(r), r.res)
